@@ -33,7 +33,7 @@ Judge(e) ==
       b == IF TextOf(pp) = e.echo THEN "pinned" ELSE IF TextOf(pr) = e.echo THEN "repaired" ELSE "none"
       ps == IF b = "repaired" THEN pr ELSE pp
   IN [b |-> b, ok |-> PiecesReadBack(ps, t), t2 |-> TextOf(SecondEcho(IF b = "repaired" THEN "repaired" ELSE "pinned", t)),
-      p |-> TextOf(pp), r |-> TextOf(pr)]
+      p |-> TextOf(pp), r |-> TextOf(pr), p2 |-> TextOf(SecondEcho("pinned", t)), r2 |-> TextOf(SecondEcho("repaired", t))]
 
 Agrees(e, j) == e.outcome # "ok" \/ (j.b # "none" /\ (j.ok => e.reok /\ e.reecho = j.t2))
 
@@ -41,14 +41,14 @@ Init == /\ l = 1
         /\ tr = ndJsonDeserialize(IOEnv.TRACE)
 
 Next == /\ l <= Len(tr)
-        /\ \E j \in {IF tr[l].outcome = "ok" THEN Judge(tr[l]) ELSE [b |-> "skip", ok |-> TRUE, t2 |-> "", p |-> "", r |-> ""]} :
+        /\ \E j \in {IF tr[l].outcome = "ok" THEN Judge(tr[l]) ELSE [b |-> "skip", ok |-> TRUE, t2 |-> "", p |-> "", r |-> "", p2 |-> "", r2 |-> ""]} :
              /\ \/ Agrees(tr[l], j)
                 \/ /\ Lenient
                    /\ ~Agrees(tr[l], j)
-                   /\ PrintT(<<"BAD", ToJson([line |-> l, b |-> j.b, p |-> j.p, r |-> j.r, ok |-> j.ok, t2 |-> j.t2,
+                   /\ PrintT(<<"BAD", ToJson([line |-> l, b |-> j.b, p |-> j.p, r |-> j.r, ok |-> j.ok, t2 |-> j.t2, p2 |-> j.p2, r2 |-> j.r2,
                                            d |-> TagSeq(UsedDiff("arg", tr[l].tree)), ra |-> Reassociated(tr[l].tree)])>>)
              /\ (tr[l].outcome = "ok" /\ ~j.ok) =>
-                   PrintT(<<"CASE", ToJson([line |-> l, b |-> j.b, p |-> j.p, r |-> j.r, d |-> TagSeq(UsedDiff("arg", tr[l].tree)),
+                   PrintT(<<"CASE", ToJson([line |-> l, b |-> j.b, p |-> j.p, r |-> j.r, p2 |-> j.p2, r2 |-> j.r2, d |-> TagSeq(UsedDiff("arg", tr[l].tree)),
                                             ra |-> Reassociated(tr[l].tree)])>>)
         /\ l' = l + 1
         /\ UNCHANGED tr
